@@ -215,6 +215,79 @@ def time_eq_case(sign):
                 desc=f"{name} branch: Stumpff C(z), S(z), y(z) = r0 + r1 + A (z S - 1)/sqrt(C) and F(z) = (y/C)^1.5 S + A sqrt(y) - sqrt(mu) dt")
 
 
+# --------------------------------------------------------------------------- (d) F' is the derivative of F (elliptic branch)
+def stumpff_rates_case():
+    """derivatives of the real Stumpff functions (dual numbers through `_C`, `_S`): C' = (1 - z S - 2 C)/(2 z),
+    S' = (C - 3 S)/(2 z) for z > 0"""
+    from symx.core import Dual
+    ins = [("z", "pos")]
+
+    def run(env, v):
+        lam = _mod(env)
+        if env.symbolic:
+            z = Dual(v["z"], 1)
+            C, S = lam._C(z), lam._S(z)
+            one = 1 - v["z"] * S.v
+            return {"dC": C.d - (1 - v["z"] * S.v - 2 * C.v) / (2 * v["z"]), "dS": S.d - (C.v - 3 * S.v) / (2 * v["z"]),
+                    "identity": one * one - C.v * (2 - v["z"] * C.v)}
+        z = float(v["z"])
+        h = 1e-5 * max(1.0, z)
+        C, S = lam._C(z), lam._S(z)
+        return {"dC": (lam._C(z + h) - lam._C(z - h)) / (2 * h) - (1 - z * S - 2 * C) / (2 * z),
+                "dS": (lam._S(z + h) - lam._S(z - h)) / (2 * h) - (C - 3 * S) / (2 * z), "identity": (1 - z * S) ** 2 - C * (2 - z * C)}
+
+    def ref(env, v, out):
+        return {"dC": 0, "dS": 0, "identity": 0}
+    return Case("lambert/dF/stumpff_rates", ins, run, ref, timeout=120, tol=0, abs_tol=1e-6,
+                desc="z > 0: d/dz of the real _C and _S (dual numbers) are (1 - z S - 2 C)/(2 z) and (C - 3 S)/(2 z), and "
+                     "(1 - z S)^2 = C (2 - z C)")
+
+
+def dF_case():
+    """Newton's iteration divides F by `_dF`: for z != 0 `_dF(z)` is the derivative with respect to z of the real `_F`, the
+    Stumpff functions standing as two arbitrary positive values C, S whose derivatives are those of stumpff_rates (a
+    compositional step: chain rule through the real `_y` and `_F`, dual numbers)"""
+    from symx.core import Dual
+    ins = [("nr0", "pos"), ("nr1", "pos"), ("A", "real"), ("mu", "pos"), ("dt", "pos"), ("z", "real"), ("C", "pos"), ("S", "pos")]
+
+    def pre(v):
+        one = 1 - v["z"] * v["S"]
+        return [v["z"] != 0, one * one == v["C"] * (2 - v["z"] * v["C"])]
+
+    def run(env, v):
+        lam = _mod(env)
+        if not env.symbolic:
+            import datetime
+            z = 1.0 + abs(float(v["z"]))
+            h = 1e-6 * z
+            args = (float(v["nr0"]) + 2, float(v["nr1"]) + 2, min(abs(float(v["A"])), 1.0))
+            dur = datetime.timedelta(seconds=float(v["dt"]))
+            num = (lam._F(*args, z + h, dur, float(v["mu"])) - lam._F(*args, z - h, dur, float(v["mu"]))) / (2 * h)
+            return {"dF": (lam._dF(*args, z) - num) / max(1.0, abs(num))}
+        saved = (lam._C, lam._S)
+        Cp = (1 - v["z"] * v["S"] - 2 * v["C"]) / (2 * v["z"])
+        Sp = (v["C"] - 3 * v["S"]) / (2 * v["z"])
+        lam._C = lambda z: Dual(v["C"], Cp) if isinstance(z, Dual) else v["C"]
+        lam._S = lambda z: Dual(v["S"], Sp) if isinstance(z, Dual) else v["S"]
+        try:
+            Fz = lam._F(v["nr0"], v["nr1"], v["A"], Dual(v["z"], 1), _TD(v["dt"]), v["mu"])
+            return {"dF": lam._dF(v["nr0"], v["nr1"], v["A"], v["z"]) - Fz.d}
+        finally:
+            lam._C, lam._S = saved
+
+    def ref(env, v, out):
+        return {"dF": 0}
+    def hints(v):
+        # closed form offered for the root of y/C met in (y/C)^1.5 (proved by the solver before it is used)
+        from symx.case import Env
+        env = Env(True)
+        y = v["nr0"] + v["nr1"] + v["A"] * (v["z"] * v["S"] - 1) / env.sqrt(v["C"])
+        return [env.sqrt(y) / env.sqrt(v["C"])]
+    return Case("lambert/dF/chain_rule", ins, run, ref, pre=pre, hints=hints, timeout=120, tol=0, abs_tol=1e-5,
+                desc="z != 0: _dF(z) = d/dz _F(z) (dual-number derivative of the real _F and _y), C(z), S(z) arbitrary positive values "
+                     "with C' = (1 - z S - 2 C)/(2 z), S' = (C - 3 S)/(2 z) and (1 - z S)^2 = C (2 - z C)")
+
+
 def cases(tier):
     return [exit_case(6 if tier == "quick" else 10), velocities_case(True), velocities_case(False),
-            time_eq_case(1), time_eq_case(0), time_eq_case(-1)]
+            time_eq_case(1), time_eq_case(0), time_eq_case(-1), stumpff_rates_case(), dF_case()]
